@@ -21,6 +21,7 @@ import (
 	"time"
 
 	"github.com/fabiolb/fabio/proxy/tcp"
+	"github.com/fabiolb/fabio/route"
 	"pgregory.net/rapid"
 
 	"verifharness/hx"
@@ -650,6 +651,96 @@ func TestC10BuiltHellos(t *testing.T) {
 		}
 		if hx.WantSample("built") && len(rec) < 400 {
 			hx.Sample("built", map[string]any{"want": want, "extensions": len(others), "hex": hex.EncodeToString(rec)})
+		}
+	})
+}
+
+// The same extraction through the code path a connection takes: the bytes are
+// handed to tcp.SNIProxy.ServeTCP on a stub connection and the name passed to
+// Lookup is compared with what crypto/tls sees. Hellos larger than 4 KiB (one
+// record) exercise the proxy's own buffering.
+type lookupRecorder struct {
+	names []string
+}
+
+func sniThroughProxy(stream []byte) (names []string) {
+	rec := &lookupRecorder{}
+	p := &tcp.SNIProxy{Lookup: func(host string) *route.Target {
+		rec.names = append(rec.names, host)
+		return nil // no route: the handler returns without dialling
+	}}
+	p.ServeTCP(&feedConn{r: bytes.NewReader(stream)})
+	return rec.names
+}
+
+func TestC10ThroughSNIProxy(t *testing.T) {
+	hx.Check(t, hx.Scale(3000, 100000), func(t *rapid.T) {
+		base := rapid.SampledFrom(baseHellos()).Draw(t, "base")
+		fixed, exts, ok := splitHello(base)
+		if !ok {
+			t.Fatalf("harness cannot split its own base hello")
+		}
+		var others []ext
+		for _, e := range exts {
+			if e.typ != 0 {
+				others = append(others, e)
+			}
+		}
+		name := rapid.SampledFrom(serverNames).Draw(t, "name")
+		withSNI := rapid.IntRange(0, 9).Draw(t, "withsni") > 0
+		// padding / unknown extensions push the hello over the 4 KiB a default bufio.Reader holds
+		for i, n := 0, rapid.IntRange(0, 3).Draw(t, "nbig"); i < n; i++ {
+			sz := rapid.SampledFrom([]int{0, 100, 1500, 3000, 4000, 4096, 5000, 9000}).Draw(t, "bigsize")
+			typ := uint16(21)
+			if i > 0 {
+				typ = uint16(0x7100 + i)
+			}
+			others = append(others, ext{typ, make([]byte, sz)})
+		}
+		if withSNI {
+			pos := rapid.IntRange(0, len(others)).Draw(t, "snipos")
+			others = append(others[:pos:pos], append([]ext{{0, sniPayload([]sniEntry{{0, []byte(name)}})}}, others[pos:]...)...)
+		}
+		rec := buildRecord(fixed, others, false, 0)
+		if len(rec)-5 > 16384 {
+			t.Skip("does not fit one record")
+		}
+		// application data may follow in the same segment
+		stream := append(append([]byte{}, rec...), rapid.SliceOfN(rapid.Byte(), 0, 64).Draw(t, "trailing")...)
+		std, called := stdlibServerName(rec)
+		var got []string
+		func() {
+			defer func() {
+				if p := recover(); p != nil {
+					t.Fatalf("SNIProxy.ServeTCP panicked: %v", p)
+				}
+			}()
+			got = sniThroughProxy(stream)
+		}()
+		hx.Eval()
+		want := ""
+		if withSNI {
+			want = name
+		}
+		if called && std != want {
+			t.Fatalf("harness: crypto/tls saw %q, builder put %q", std, want)
+		}
+		ctx := fmt.Sprintf("hello of %d bytes, %d extensions, server name %q", len(rec), len(others), want)
+		if want == "" {
+			if len(got) != 0 {
+				t.Fatalf("proxy looked up %q for a hello without server name\n%s", got, ctx)
+			}
+		} else if len(got) != 1 || got[0] != want {
+			t.Fatalf("proxy routed on %q, crypto/tls sees server name %q\n%s", got, want, ctx)
+		}
+		if len(rec) > 4096 {
+			hx.Class("through-proxy:hello>4KiB")
+			hx.NonTrivial("big|" + ctx)
+		} else {
+			hx.Class("through-proxy:hello<=4KiB")
+		}
+		if withSNI && len(others) >= 3 {
+			hx.NonTrivial("proxy|" + ctx + name)
 		}
 	})
 }
